@@ -253,7 +253,8 @@ def edit_program(rng, rules):
     return new
 
 
-def gen_history(rng, rules, nops, cancel=False, threads=False, allow_restart=True, allow_revert=True, crash=False, reprogram=False, foreign_cancel=False):
+def gen_history(rng, rules, nops, cancel=False, threads=False, allow_restart=True, allow_revert=True, crash=False, reprogram=False, foreign_cancel=False,
+                dbfail=False):
     """list of op dicts.  Builds carry a random completion schedule; with `cancel`, some builds are
     cancelled at a random event or hook point."""
     keys = sorted(rules)
@@ -316,6 +317,9 @@ def gen_history(rng, rules, nops, cancel=False, threads=False, allow_restart=Tru
                 ops.append({"op": "K", "key": tgt, "cancel_at": 3 + rng.below(60), "mode": 0, "items": [(0, ks) for _, ks in items]})
                 nb += 1
                 continue
+            if dbfail and rng.chance(1, 4):
+                # the next database write of a rule result fails: the engine reports the error and fails the build
+                ops.append({"op": "F"})
             ops.append({"op": "B", "key": tgt, "cancel_at": cancel_at, "mode": mode, "items": items})
             nb += 1
     return ops
@@ -521,6 +525,16 @@ def analyse_case(case, houts, focus):
             continue
         seen_ret = False
         valid_seen = {}
+        # a FAILED database write: `S k 2 … DS k …` answered by `ER 6` (with the `X` the same event may trigger in between).
+        # The engine resets the rule and nothing is stored: for the observer the execution was interrupted.
+        failed_writes = set()
+        for j, e in enumerate(tr):
+            if e[0] == "DS":
+                nxt = [x[:2] for x in tr[j + 1:j + 3]]
+                if nxt[:1] == [["ER", "6"]] or nxt == [["X"], ["ER", "6"]]:
+                    failed_writes.add(int(e[1]))
+        if failed_writes:
+            st["failed_db_writes"] = st.get("failed_db_writes", 0) + len(failed_writes)
         for e in tr:
             t = e[0]
             if seen_ret and t not in ("Z",):
@@ -650,6 +664,8 @@ def analyse_case(case, houts, focus):
                     finished.add(k)
                     sh.uptodate[k] = sh.epoch
                     st["uptodate"] += 1
+                elif s == 2 and k in failed_writes:
+                    inflight.add(k)
                 elif s == 2:
                     finished.add(k)
                     inflight.discard(k)
@@ -660,6 +676,8 @@ def analyse_case(case, houts, focus):
                     sh.dbvalue[k] = sh.value.get(k, 0)
                     sh.dbchanged[k] = sh.changed.get(k, 0)
                     sh.sig_at_complete[k] = (rules_now[k].sigBase + env.get(SIG_OFFSET + k, 0)) if k in rules_now else 0
+            elif t == "DS" and int(e[1]) in failed_writes:
+                pass
             elif t == "DS":
                 nd = int(e[6])
                 sh.deps[int(e[1])] = [(int(e[7 + 3 * j]), e[8 + 3 * j] == "1", e[9 + 3 * j] == "1") for j in range(nd)]
